@@ -232,7 +232,7 @@ Print Assumptions mech_short_circuit_refuted.
 Theorem mech_and_skips_rhs_refuted : exists funcs k ty a b s,
   ieval dev_pinned funcs k ty a s = (Val 0, s) /\ ieval dev_pinned funcs (S (S k)) ty (EAnd a b) s = (Fail EDiv0, s).
 Proof.
-  exists [], 1%nat, false, (ENum 0), (EBin Div (ENum 1) (ENum 0)), (init_state (prog [] [])). exact mech_and_law_fails.
+  exists [], 1%nat, false, (ENum 0), (EBin Div (ENum 1) (ENum 0)), (state_with []). exact mech_and_law_fails.
 Qed.
 Print Assumptions mech_and_skips_rhs_refuted.
 
@@ -272,8 +272,8 @@ Proof. split; reflexivity. Qed.
 
 Example traced_args_instance :
   eval_args (eval [t_fun; bad_fun] 10) [ {| pty := tlong; pname := 20%nat; pdef := None |}; {| pty := tlong; pname := 21%nat; pdef := None |} ]
-            (tcalls [(101, 5); (102, 6)]) (init_state (prog [] [])) =
-  (Val [5; 6], with_out (init_state (prog [] [])) [ONl; OInt 102; ONl; OInt 101]).
+            (tcalls [(101, 5); (102, 6)]) (state_with []) =
+  (Val [5; 6], with_out (state_with []) [ONl; OInt 102; ONl; OInt 101]).
 Proof. vm_compute. reflexivity. Qed.
 
 Example guard_instance :
